@@ -81,10 +81,13 @@ def shards(tier, seed):
     return out
 
 
-def gen_history(rnd, g, kind=""):
+PINNED = ["one/tag-~X~/mk-tuple-2~E/ident", "mk-dict-2/setkey-z-~X~/mk-pairs-3~E/ident"]
+
+
+def gen_history(rnd, g, kind="", pinned=None):
     from lqv import evalcache as E
 
-    base = None
+    base = pinned
     if ("if_contains" in kind or "if_attribute_equal" in kind) and rnd.random() < 0.75:
         # conditional caches admit only results carrying the capitalised attribute: make them reachable
         g._numeric_prefix = False
@@ -98,6 +101,10 @@ def gen_history(rnd, g, kind=""):
         base = rnd.choice(["mk-tuple-3/ident", "mk-pairs-2/ident", "mk-set-2/ident", "mk-df-2/ident", "mk-bytes-3/ident",
                            "mk-nested/ident", "mk-none/ident", "mk-float-3/ident", "mk-text-2/ident", "mk-dict-2/ident"])
         base += "/" + g.query(0, first=False, max_len=2)
+    if base is None and rnd.random() < 0.08:
+        # state variables holding values of every kind (they travel in the caches' metadata)
+        base = "one/tag-~X~/%s~E/%s" % (rnd.choice(["mk-tuple-2", "mk-list-2", "mk-dict-2", "mk-text-2", "mk-float-3", "mk-none", "mk-nested"]),
+                                       g.query(0, first=False, max_len=2))
     fam = E.family(rnd, g, base=base)
     events = []
     n = rnd.randint(8, 14)
@@ -165,7 +172,7 @@ def run_history(env, kind, fam, events, scratch, viol, stats, mode):
             stats["with_hit"] += 1
             stats["nontrivial"].add("%s/%s/%d" % (kind, stats["hist_id"], step))
         if mode == "C04":
-            for field, detail in E.compare_outcomes(ref, got):
+            for field, detail in E.compare_outcomes(ref, got, env, q):
                 viol(field, "%s: step %d evaluate(%r, input=%r, extra=%r)%s: %s" % (
                     kind, step, q, None if e.get("input") is None else E.INPUTS[e["input"]], e.get("extra"),
                     " [cache hit]" if hit else "", detail), step)
@@ -210,7 +217,8 @@ def run_shard(spec, mode=None):
         g.avoid_none_default = True
         for h in range(spec["n"]):
             stats["hist_id"] = "%s.%d" % (spec["rep"], h)
-            fam, events = gen_history(rnd, g, kind)
+            # the first histories of every configuration are about values JSON has no native form for
+            fam, events = gen_history(rnd, g, kind, pinned=PINNED[h] if (spec["rep"] == 0 and h < len(PINNED)) else None)
             run_history(env, kind, fam, events, scratch, make_viol(kind, fam, events), stats, mode)
             if not samples and h == 1:
                 samples.append({"kind": kind, "family": fam[:6], "events": events[:8]})
